@@ -268,7 +268,7 @@ def driver_cases(draw, tier, kind, first=None, families=None, max_len=8, poly=Fa
         X = np.zeros((D, P, N))
         X[0] = pr['pts'][0][1:1 + P]
         if D > 1:
-            X[1:] = draw(gen.float_array((D - 1, P, N), gen.coeff_elements(1.0)))
+            X[1:] = draw(gen.higher_coeffs((D - 1, P, N), gen.coeff_elements(1.0)))
         case['X'] = X
     return case
 
